@@ -2,12 +2,15 @@
   C17 — substitution of a term for a variable never captures variables.
 
   Status: the model mirrors `Formula::substitute` after the `fix:` commit b9b9933 (see
-  known_findings.jsonl for the two witnesses that failed before). Proved here: the substitution
-  lemma at term and atom level without side condition, and at formula level whenever the
-  renaming loop does not fire (`NoRename`). The full statement `SubstituteCorrect` is kept
-  visible below; its general proof (renaming case) is in `Proofs/SubstFull` when present.
+  known_findings.jsonl for the two witnesses that failed before). Proved: the substitution lemma
+  for terms, atoms and formulas — including the renaming of captured binders, with names chosen
+  by the real fresh-name search — for every formula whose quantifier blocks bind no variable
+  twice (`NodupBinders`; a block like `exists X X …` is the only case left open), in HT and
+  classical semantics; the free-variable bound; the same lemma without `NodupBinders` when no
+  binder needs renaming. The unconditional statement `SubstituteCorrect` is kept visible.
 -/
 import AnthemModel.Proofs.SubstBasic
+import AnthemModel.Proofs.SubstFull
 namespace Anthem.C17
 
 /-- The property at full strength (HT version; the classical one is the `there` world). -/
@@ -39,6 +42,35 @@ theorem substitute_correct_partial_classical (F : Formula) (v : Var) (s : GTerm)
     sat I (F.subst v s) ρ ↔ sat I F (ρ.set v (s.eval I.fc ρ)) := by
   have := substitute_correct_partial F v s hc hn ⟨I.pred, I.pred, I.fc⟩ .there ρ
   rwa [ht_there_eq_sat, ht_there_eq_sat] at this
+
+/-- **Substitution never captures** (general case, renaming included): the result has, in every HT
+    interpretation, world and assignment, the truth value of the original with the variable
+    assigned the term's value. -/
+theorem substitute_correct (F : Formula) (hnb : NodupBinders F) (v : Var) (s : GTerm)
+    (hc : SortCompatible v s) (M : HTI) (w : World) (ρ : Asg) :
+    ht M (F.subst v s) w ρ ↔ ht M F w (ρ.set v (s.eval M.fc ρ)) :=
+  ht_subst M F hnb v s hc w ρ
+
+theorem substitute_correct_classical (F : Formula) (hnb : NodupBinders F) (v : Var) (s : GTerm)
+    (hc : SortCompatible v s) (I : Interp) (ρ : Asg) :
+    sat I (F.subst v s) ρ ↔ sat I F (ρ.set v (s.eval I.fc ρ)) :=
+  sat_subst I F hnb v s hc ρ
+
+/-- Free variables of the result: those of the original minus the variable, plus (at most) those
+    of the term. -/
+theorem substitute_fv (F : Formula) (hnb : NodupBinders F) (v : Var) (s : GTerm)
+    (hc : SortCompatible v s) (u : Var) (hu : (F.subst v s).FV u) :
+    (F.FV u ∧ u ≠ v) ∨ u ∈ s.vars :=
+  subst_FV F hnb v s hc u hu
+
+/-- The fresh binder chosen by the real search is never a taken name. -/
+theorem fresh_binder_not_taken (base : Var) (taken : List Var) : freshVar base taken ∉ taken :=
+  freshVar_not_mem base taken
+
+/-- Non-vacuity: a formula that needs renaming satisfies the hypotheses. -/
+example : NodupBinders (.quant .ex [⟨"Y", .general⟩] (.atomic (.atom ⟨"p", [.var "X", .var "Y"]⟩))) ∧
+    SortCompatible ⟨"X", .general⟩ (.var "Y") := by
+  simp [NodupBinders, SortCompatible]
 
 /-- Bound occurrences are untouched: substituting a variable bound by the outermost block
     returns the formula itself. -/
